@@ -709,7 +709,10 @@ class Tr:
         v = self.ev(node.operand, env)
         if isinstance(node.op, ast.USub):
             if isinstance(node.operand, ast.Constant) and isinstance(node.operand.value, (int, float)) and not isinstance(node.operand.value, bool):
-                return Sc(lit(-node.operand.value)) if node.operand.value != 0 else Sc("(- 0)")
+                r = Sc(lit(-node.operand.value)) if node.operand.value != 0 else Sc("(- 0)")
+                if isinstance(node.operand.value, int):
+                    r.pyconst = -node.operand.value
+                return r
             return self.map1(lambda t: f"(- {t})", v, node, dl="vneg")
         if isinstance(node.op, ast.UAdd):
             return v
@@ -1262,6 +1265,19 @@ def _vectorize(tr, node, args, kwargs):
     return args[0]  # call_defined already broadcasts over one list argument
 
 
+def _diags(tr, node, args, kwargs):
+    # sparse.diags([low, main, up], [-1, 0, 1], format=...): the three diagonals of a tridiagonal matrix
+    for k in kwargs:
+        if k != "format":
+            fail(node, f"sparse.diags keyword {k}")
+    if len(args) != 2 or not isinstance(args[0], SV) or not isinstance(args[1], SV):
+        fail(node, "sparse.diags form")
+    offs = [getattr(o, "pyconst", None) for o in args[1].items]
+    if offs != [-1, 0, 1] or len(args[0].items) != 3 or not all(isinstance(d, DL) for d in args[0].items):
+        fail(node, "sparse.diags must be given (low, main, up) with offsets [-1, 0, 1]")
+    return Tu(list(args[0].items))
+
+
 def _zip(tr, node, args, kwargs):
     fail(node, "zip")
 
@@ -1279,7 +1295,7 @@ BUILTINS = {
     "cumulative_trapezoid": _cumtrapz, "sp.integrate.cumulative_trapezoid": _cumtrapz,
     "integrate.cumulative_trapezoid": _cumtrapz,
     "brentq": _brentq, "quad": _quad,
-    "pd.DataFrame": _dataframe, "np.vectorize": _vectorize,
+    "pd.DataFrame": _dataframe, "np.vectorize": _vectorize, "sparse.diags": _diags,
 }
 
 
